@@ -57,6 +57,11 @@ def op_native(nat, ns, op):
     elif k == 'add_var': ns.call('reb_simulation_add_variation_1st_order', ctypes.c_int(-1), restype=ctypes.c_int)
     elif k == 'synchronize': ns.call('reb_simulation_synchronize')
 
+def use_first(pattern, k, label):
+    """does this probe repeat the value it had in the first snapshot?  'same': always; 'alt': at every second save; 'first': every probe
+    except the x coordinate of particle 0 (one early array element changes while the last one stays bit-identical)"""
+    return pattern == 'same' or (pattern == 'alt' and k % 2 == 0) or (pattern == 'first' and label != 'particles[0].x')
+
 def probes(locs):
     """probe quantities made symbolic at each save"""
     out = []; seen_arr = set()
@@ -69,7 +74,7 @@ def probes(locs):
     return out
 
 def run_history(I, cfgname, n, hist, pattern, conc=None):
-    """hist: list of segments; each segment = list of ops followed by a save.  pattern: 'diff' | 'same' | 'alt'.
+    """hist: list of segments; each segment = list of ops followed by a save.  pattern: 'diff' | 'same' | 'alt' | 'first' (see use_first).
     returns (records: per save {label: value}, probe symbol table)"""
     cfg = P.CONFIGS[cfgname]
     I.concrete_env = True
@@ -84,7 +89,7 @@ def run_history(I, cfgname, n, hist, pattern, conc=None):
         for lc in pr:
             p = lc.ptr(I, sim)
             orig = I.mem.load(p, lc.ty)
-            if (pattern == 'same' or (pattern == 'alt' and k % 2 == 0)) and lc.label in first:
+            if use_first(pattern, k, lc.label) and lc.label in first:
                 v = first[lc.label]
             else:
                 nm = 'P%d!%s' % (k, lc.label)
@@ -210,7 +215,7 @@ def _native_history(cfgname, n, hist, pattern, conc):
                 if a is None: continue
                 CT = ctypes.c_uint64
                 orig = CT.from_address(a).value
-                if (pattern == 'same' or (pattern == 'alt' and k % 2 == 0)) and lc.label in first: v = first[lc.label]
+                if use_first(pattern, k, lc.label) and lc.label in first: v = first[lc.label]
                 else:
                     v = conc.get('P%d!%s' % (k, lc.label), 0)
                     if lc.label not in first: first[lc.label] = v
@@ -269,7 +274,7 @@ def native_snapshot_compare(cfgname, n, hist, pattern, conc):
                 a = lc.naddr(ns)
                 if a is None: continue
                 orig = ctypes.c_uint64.from_address(a).value
-                if (pattern == 'same' or (pattern == 'alt' and k % 2 == 0)) and lc.label in first: v = first[lc.label]
+                if use_first(pattern, k, lc.label) and lc.label in first: v = first[lc.label]
                 else:
                     v = conc.get('P%d!%s' % (k, lc.label), 0)
                     if lc.label not in first: first[lc.label] = v
@@ -343,6 +348,9 @@ def histories(tier):
         ('bs', [[], [st], [['reset_integrator'], st]]),
         ('saba', [[], [st], [['switch', 'WHFAST'], st]]),
     ]
+    # no step between the saves: only what the probes change differs from the first snapshot
+    for cfg in ('whfast', 'ias15', 'fresh'):
+        H.append(dict(cfg=cfg, n=2, hist=[[], [['set', 'dt', 0.5]], [['set', 'dt', 0.25]]], pattern='first'))
     for cfg, h in curated:
         # 'alt': the probes return to the FIRST snapshot's values at every second save (t back at t0 after an excursion, ...)
         for pat in ('diff', 'same') + (('alt',) if len(h) >= 3 else ()):
